@@ -714,6 +714,19 @@ def run_property(prop, tier, seed):
                         known_hits.append((o, fc, k))
                     else:
                         new.append(fc)
+                if new and o["engine"] == "verus" and o.get("native_search") and not os.environ.get("VERIF_NO_NATIVE_SEARCH"):
+                    # Verus is incomplete: a body that was refactored into constructs it cannot reason about (closures,
+                    # combinators without a specification) fails its postcondition although the behaviour is unchanged.
+                    # A failed proof is "undecided" unless the real code can be made to disagree with the contract:
+                    # drive the tree under verification through its public API over the contract's boundary inputs.
+                    sys.path.insert(0, os.path.join(VERIF, "vlib"))
+                    import native_search
+                    ns = native_search.run(o["native_search"], REPO, seed)
+                    r["native_search"] = ns
+                    if not ns.get("found") and ns.get("checked"):
+                        r2 = dict(r, status="undecided", reason="Verus could not re-prove the contract for the current body (%s) and the native search over %d inputs of the real code found no disagreement with the contract: proof failure, not a refutation" % (r.get("reason", "")[:200], ns["checked"]))
+                        undecided.append((o, r2))
+                        continue
                 if new:
                     violations.append((o, new, r))
                 continue
@@ -747,9 +760,7 @@ def run_property(prop, tier, seed):
                 replay["verifier_output"] = r.get("verifier_output") or r.get("reason")
                 replay["replay_status"] = "verifier gives no counterexample"
                 if o["engine"] == "verus" and o.get("native_search"):
-                    sys.path.insert(0, os.path.join(VERIF, "vlib"))
-                    import native_search
-                    ns = native_search.run(o["native_search"], REPO, seed)
+                    ns = r.get("native_search") or {}
                     replay["native_search"] = ns
                     if ns.get("found"):
                         found_input = True
